@@ -13,13 +13,13 @@
 (***************************************************************************)
 EXTENDS TokenGame
 
-CONSTANTS OutFile, MaxSteps, Features, MaxRetry, MaxWaits
+CONSTANTS OutFile, MaxSteps, Features, MaxRetry, MaxWaits, MaxDeliver
 
 VARIABLES h
 
 ASSUME TLCSet(1, <<>>)
 
-Cnt(st) == [req |-> st.reqn, end |-> st.ended, err |-> st.errs,
+Cnt(st) == [req |-> st.reqn, end |-> st.ended, err |-> st.errs, listen |-> st.lstn,
             cease |-> IF st.ceased THEN 1 ELSE 0]
 
 XInit == \E i \in 1..NProg : s = CloseQuiet(Started(InitState(i))) /\ h = <<>>
@@ -33,11 +33,12 @@ AnswerKinds(n) ==
 
 XAnswer ==
   /\ Len(h) < MaxSteps
+  /\ (Len(h) > 0 => h[Len(h)].op # "deliverc")
   /\ \E t \in ReqToks(s) : \E pl \in Payloads(s.p, Node(s.p, t.at)) :
      \E kn \in AnswerKinds(Node(s.p, t.at)) :
         /\ s' = CloseQuiet(AnswerAny(s, t, pl, kn[1], kn[2]))
         /\ h' = Append(h, [op |-> "answer", node |-> t.at, occ |-> t.occ, vars |-> pl,
-                           kind |-> kn[1], n |-> kn[2], cands |-> <<>>, pre |-> Cnt(s)])
+                           kind |-> kn[1], n |-> kn[2], cands |-> <<>>, evs |-> <<>>, pre |-> Cnt(s)])
 
 \* a further Do on the request answered last: must have no effect at all
 XAgain ==
@@ -46,7 +47,7 @@ XAgain ==
   /\ \E pl \in Payloads(s.p, Node(s.p, h[Len(h)].node)) :
         /\ pl # h[Len(h)].vars
         /\ h' = Append(h, [op |-> "again", node |-> h[Len(h)].node, occ |-> h[Len(h)].occ, vars |-> pl,
-                           kind |-> "", n |-> 0, cands |-> <<>>, pre |-> Cnt(s)])
+                           kind |-> "", n |-> 0, cands |-> <<>>, evs |-> <<>>, pre |-> Cnt(s)])
   /\ UNCHANGED s
 
 \* several first answers issued concurrently: exactly one takes effect.  The
@@ -63,7 +64,7 @@ XAnswerC ==
             LET cs == SetToSeq(P) IN
             /\ s' = CloseQuiet(AnswerOK(s, t, cs[1]))
             /\ h' = Append(h, [op |-> "answerc", node |-> t.at, occ |-> t.occ, vars |-> cs[1],
-                               kind |-> "", n |-> 0, cands |-> SubSeq(cs, 1, k), pre |-> Cnt(s)])
+                               kind |-> "", n |-> 0, cands |-> SubSeq(cs, 1, k), evs |-> <<>>, pre |-> Cnt(s)])
 
 \* completion waits at arbitrary points: n is the time-out in milliseconds
 NWaits == Cardinality({i \in DOMAIN h : h[i].op = "wait"})
@@ -72,18 +73,53 @@ XWait ==
   /\ Len(h) < MaxSteps /\ NWaits < MaxWaits
   /\ \E ms \in (IF s.ceased THEN {2000} ELSE {1, 20}) : \E k \in 1..(IF "concwait" \in Features THEN 3 ELSE 1) :
         h' = Append(h, [op |-> "wait", node |-> "", occ |-> k, vars |-> <<>>,
-                        kind |-> "", n |-> ms, cands |-> <<>>, pre |-> Cnt(s)])
+                        kind |-> "", n |-> ms, cands |-> <<>>, evs |-> <<>>, pre |-> Cnt(s)])
   /\ UNCHANGED s
 
-XNext == XAnswer \/ XAgain \/ XAnswerC \/ XWait
+\* events the environment may deliver: every definition of the program plus
+\* one that matches nothing
+Alphabet(i) ==
+  {<<"signal", "nomatch">>} \cup
+  UNION {{<<Node(i, c).evs[j].k, Node(i, c).evs[j].ref>> : j \in DOMAIN Node(i, c).evs} : c \in CatchIds(i)}
+
+NDeliver == Cardinality({i \in DOMAIN h : h[i].op \in {"deliver", "deliverc"}})
+Step0 == [op |-> "", node |-> "", occ |-> 0, vars |-> <<>>, kind |-> "", n |-> 0, cands |-> <<>>, evs |-> <<>>]
+
+\* one event delivered (the call returns before the next action)
+XDeliver ==
+  /\ "deliver" \in Features
+  /\ Len(h) < MaxSteps /\ NDeliver < MaxDeliver
+  /\ (Len(h) > 0 => h[Len(h)].op # "deliverc")
+  /\ \E ev \in Alphabet(s.p) :
+        /\ s' = CloseQuiet(Delivered(Deliver(s, ev[1], ev[2]), ev[1], ev[2]))
+        /\ h' = Append(h, [Step0 EXCEPT !.op = "deliver", !.kind = ev[1], !.node = ev[2]] @@ [pre |-> Cnt(s)])
+
+\* two or three different events delivered at the same time from different
+\* goroutines; the outcome depends on the race, so this is the last scripted
+\* step (the driver answers whatever is requested afterwards)
+XDeliverC ==
+  /\ "deliverc" \in Features
+  /\ Len(h) < MaxSteps
+  /\ (Len(h) > 0 => h[Len(h)].op # "deliverc")
+  /\ \E E \in SUBSET Alphabet(s.p) : Cardinality(E) \in 2..3 /\
+        LET q == SetToSeq(E) IN
+        /\ s' = s
+        /\ h' = Append(h, [Step0 EXCEPT !.op = "deliverc",
+                              !.evs = [j \in DOMAIN q |-> [k |-> q[j][1], ref |-> q[j][2]]]] @@ [pre |-> Cnt(s)])
+
+XNext == XAnswer \/ XAgain \/ XAnswerC \/ XWait \/ XDeliver \/ XDeliverC
 XSpec == XInit /\ [][XNext]_<<s, h>>
 
 \* a schedule is maximal when nothing is left to answer (a wait-enabled export
 \* additionally ends every schedule with the final long wait)
 Terminal ==
   \/ Len(h) >= MaxSteps
+  \/ (Len(h) > 0 /\ h[Len(h)].op = "deliverc")
   \/ /\ ReqToks(s) = {}
      /\ ("wait" \in Features /\ s.ceased) => (Len(h) > 0 /\ h[Len(h)].op = "wait" /\ h[Len(h)].n = 2000)
+     \* with deliveries enabled a schedule ends when the instance has completed
+     \* or the delivery budget is used up (prefixes are not recorded)
+     /\ "deliver" \in Features => (s.ceased \/ NDeliver >= MaxDeliver)
 
 \* evaluated on every state: records maximal schedules, never prunes
 Record ==
@@ -98,7 +134,9 @@ Dump == ndJsonSerialize(OutFile, TLCGet(1))
 (* invariants of the game checked over the macro-step graph *)
 \* after a no-flow error (or a token stopped by exit / exhausted retries) the
 \* rest of the instance may legitimately wait for ever
-XNoDeadToken  == (ReqToks(s) = {} /\ Moves(s) = {} /\ Live(s) = Toks(s) /\ s.nkill = 0) => Live(s) = {}
+XNoDeadToken  ==
+  (/\ {t \in Toks(s) : t.st \in {"req", "listen", "arriving"}} = {}     \* nothing waits for the environment
+   /\ Moves(s) = {} /\ Live(s) = Toks(s) /\ s.nkill = 0) => Live(s) = {}
 XCeaseIffDone == s.ceased <=> Complete(s)
 XReqOnce      == RequestedOncePerToken
 =============================================================================
